@@ -25,12 +25,13 @@ Theorem C12_fold_refuses : forall t v F,
 Proof. exact FoldProofs.C12_fold_refuses. Qed.
 Print Assumptions C12_fold_refuses.
 
-(* Conversely a value the mapping defines is folded without error, provided the dynamic
-   types held by interfaces compile ([dyn_ok]; without it the statement is refuted, see
-   C12_fold_accepts_counterexample in Gotype/FoldProofs.v: an interface holding a struct with
-   an empty omitempty field of unsupported type). *)
+(* Conversely a value the mapping defines, of a supported static type, is folded without
+   error.  (What an interface holds is judged by the mapping itself: its dynamic type must
+   be a supported one.  Two earlier counterexamples against a looser mapping are kept in
+   Gotype/FoldProofs.v as C12_former_counterexample1/2; the premise on the static type is
+   necessary, see C12_fold_accepts_needs_supported there.) *)
 Theorem C12_fold_accepts : forall t v F c,
-  has_type t v = true -> spec_supported (S (tsize t)) t = true -> dyn_ok v = true ->
+  has_type t v = true -> spec_supported (S (tsize t)) t = true ->
   spec_fold F t v = Some c -> snd (fold_value t v) = None.
 Proof. exact FoldProofs.C12_fold_accepts. Qed.
 Print Assumptions C12_fold_accepts.
